@@ -14,7 +14,8 @@ Three layers (see DESIGN.md "### C20"):
  * known findings: raw-vs-optimized differences are attributed to pest_meta optimizer passes by
    running the Lean model on the AST after each pass (Python mirror of the passes, cross-checked
    against pest_meta's own output): only differences introduced by `unroll` in a grammar with skip
-   rules (F-OPT-3) or by `list` (F-OPT-1) get the known prefixes, everything else is "unexplained"."""
+   rules (F-OPT-3), by `unroll` of an `e{n,m}` with n > m in a grammar without skip rules (F-OPT-4) or by
+   `list` (F-OPT-1) get the known prefixes, everything else is "unexplained"."""
 import concurrent.futures, hashlib, json, os, random, re, subprocess, time
 from . import common, suites
 from .common import BUILD, CACHE
@@ -27,6 +28,7 @@ TIE_KEYS = ["v", "end", "stk", "trk", "tok"]
 
 P_LISTER = "raw-vs-optimized: lister"
 P_SKIP = "raw-vs-optimized: trailing skip of unrolled repetition"
+P_MINMAX = "raw-vs-optimized: counted repetition with MIN > MAX"
 P_UNEXPLAINED = "raw-vs-optimized: unexplained"
 
 
@@ -38,6 +40,16 @@ def _cases_for(g, rnd, maxlen, nrand):
             for entry in ("parse_partial", "parse"):
                 cases.append((g["gid"], rule, entry, "str", 0, 0, s))
     return cases
+
+
+def _short_dbg(line):
+    """The `{:?}` rendering is only compared for equality: keep a digest."""
+    k = line.find("\tdbg=")
+    if k < 0:
+        return line
+    e = line.find("\t", k + 1)
+    val = line[k + 5:] if e < 0 else line[k + 5:e]
+    return line[:k] + "\tdbg=" + hashlib.md5(val.encode()).hexdigest()[:16] + ("" if e < 0 else line[e:])
 
 
 def _driver_lines(sexp_path, lines, nproc=8):
@@ -110,7 +122,7 @@ def suite_opts(tier, seed):
     # --- compile the corpus under every option set -----------------------------------------------
     t1 = time.time()
     ws = os.path.join(BUILD, f"ws_opts_{tier}")
-    layout = opts.emit_all(ok, sets, ws, suites.NBINS)
+    layout = opts.emit_all(ok, sets, ws, suites.NBINS, tag=tier[0])
     rc, err = opts.build_all(ws)
     timing["build_s"] = round(time.time() - t1, 1)
     failed = {}
@@ -132,7 +144,7 @@ def suite_opts(tier, seed):
         if tier == "quick":
             cases += _cases_for(g, rnd, 4, 10)
         else:
-            cases += _cases_for(g, rnd, 3 if big else 5, 4 if big else 24)
+            cases += _cases_for(g, rnd, 3 if big else 4, 4 if big else 24)
     json.dump(cases, open(os.path.join(d, "cases.json"), "w"), ensure_ascii=False)
     for s in sets:
         prefix, where = layout[s.name]
@@ -144,7 +156,7 @@ def suite_opts(tier, seed):
             impl = [next(it) if where[c[0]] not in badbins else "v=nobuild" for c in cases]
         else:
             impl = suites.run_bins(prefix, where, cases)
-        open(os.path.join(d, f"impl_{s.name}.txt"), "w").write("\n".join(impl) + "\n")
+        open(os.path.join(d, f"impl_{s.name}.txt"), "w").write("\n".join(_short_dbg(l) for l in impl) + "\n")
     timing["run_impl_s"] = round(time.time() - t1, 1)
 
     # --- the model under each (box_only_if_needed, pest_optimizer) -------------------------------
@@ -214,7 +226,8 @@ def classify_raw_vs_opt(meta, diffs):
         info[gid] = {"stages": [n for n, _ in stages], "mirror_ok": mirror_ok,
                      "lister_pattern": any(opts.has_lister_pattern(r[4]) for r in sx[2:]),
                      "unrolled_rep": any(opts.has_unrolled_rep(r[4]) for r in sx[2:]),
-                     "skip_defined": opts.skip_defined(sx)}
+                     "skip_defined": opts.skip_defined(sx),
+                     "inverted_minmax": any(opts.has_inverted_minmax(r[4]) for r in sx[2:])}
         for n, exprs in stages:
             lines_sexp.append(opts.stage_grammar_sexp(sx, f"{gid}@{n}", exprs))
     path = os.path.join(BUILD, "c20", "stages_%d.sexp" % os.getpid())
@@ -234,7 +247,7 @@ def classify_raw_vs_opt(meta, diffs):
         pos += len(names)
         changed = [names[j] for j in range(1, len(names)) if _cross_differs(obs[j - 1], obs[j])]
         ends = {names[j]: (obs[j].get("v"), obs[j].get("end")) for j in range(len(names))}
-        detail = {"passes_that_change_the_model": changed, "per_stage": ends, "grammar_signature": {k2: gi[k2] for k2 in ("lister_pattern", "unrolled_rep", "skip_defined")}}
+        detail = {"passes_that_change_the_model": changed, "per_stage": ends, "grammar_signature": {k2: gi[k2] for k2 in ("lister_pattern", "unrolled_rep", "skip_defined", "inverted_minmax")}}
         anchored = gi["mirror_ok"] and not _cross_differs(obs[0], rio) and not _cross_differs(obs[-1], dio) \
             and obs[0].get("v") != "oof" and obs[-1].get("v") != "oof"
         if not anchored:
@@ -242,8 +255,10 @@ def classify_raw_vs_opt(meta, diffs):
             res.append((P_UNEXPLAINED, detail))
         elif changed and set(changed) <= {"unroll", "list"} and "list" in changed and gi["lister_pattern"]:
             res.append((P_LISTER + (" (with unroll)" if "unroll" in changed else ""), detail))
-        elif changed == ["unroll"] and gi["unrolled_rep"] and gi["skip_defined"]:
+        elif changed == ["unroll"] and gi["unrolled_rep"] and gi["skip_defined"] and not gi["inverted_minmax"]:
             res.append((P_SKIP, detail))
+        elif changed == ["unroll"] and gi["inverted_minmax"] and not gi["skip_defined"]:
+            res.append((P_MINMAX, detail))
         else:
             detail["why"] = "difference introduced by pass(es) %s" % changed
             res.append((P_UNEXPLAINED, detail))
@@ -260,7 +275,7 @@ def check_C20(ctx):
                      "seeded random grammars (plain / stack-heavy / recursive / multi-byte, and a second batch of recursive ones), each compiled "
                      "under every option set of the tier (quick: default, all-on, pest_optimizer=false, 2 seeded combinations; thorough: all 16 "
                      "combinations of box_only_if_needed x emit_rule_reference x do_not_emit_span x pest_optimizer); cases = every rule x all strings "
-                     "up to length 4 (5 thorough) over the grammar's alphabet + random longer ones x {parse_partial, parse}; one evaluation = one case "
+                     "up to length 4 over the grammar's alphabet + random longer ones x {parse_partial, parse}; one evaluation = one case "
                      "compared between the default option set and another one; non-trivial = the default run consumed input, left a stack or recorded "
                      "attempts under several rules; distinct by (grammar, rule, input)")
     d = suite_opts(ctx.tier, ctx.seed)
@@ -281,7 +296,6 @@ def check_C20(ctx):
     nd_total = 0
     for name, r in det.items():
         nd_total += 1
-        dummy = ("*", "*", "derive", "tokens", 0, 0, "")
         if len(set(r["digests"])) != 1:
             ctx.violation("nondeterministic token stream across processes", (",".join(r["differing"][:5]), "*", "derive", "tokens", 0, 0, ""),
                           option_set=r["attrs"], digests=r["digests"], grammars=r["differing"][:20])
